@@ -1,4 +1,4 @@
-//go:build verif && (comp_all || comp_ipparse)
+//go:build verif && (comp_all || comp_ipparse || comp_reject)
 
 package nebula
 
